@@ -122,8 +122,13 @@ impl SlowlogRecord {
 
         let limit_len = |mut s: String| {
             let real_len = s.len();
-            s.truncate(MAX_ELEMENT_LENGTH);
             if real_len > MAX_ELEMENT_LENGTH {
+                // `String::truncate` panics if it cuts inside a multi-byte character.
+                let end = (0..=MAX_ELEMENT_LENGTH)
+                    .rev()
+                    .find(|i| s.is_char_boundary(*i))
+                    .unwrap_or(0);
+                s.truncate(end);
                 let postfix = format!("({}bytes)", real_len);
                 s.push_str(&postfix)
             }
